@@ -30,13 +30,16 @@ impl Interval {
     { unimplemented!() }
 }
 pub open spec fn int_of(v: ScalarValue) -> Option<int> { match v { ScalarValue::Int64(Some(x)) => Some(x as int), _ => None } }
-/// R13: `a <= b`, `a < b`, `a >= b`, `a > b` on ScalarValue (PartialOrd), specified for two non-NULL Int64 values
+/// R13: `a <= b`, `a < b`, `a >= b`, `a > b` on ScalarValue (PartialOrd), specified for two Int64 values: the comparison of
+/// the two Option<i64> payloads, in which None (NULL) sorts before every Some
+pub open spec fn opt_le(a: Option<int>, b: Option<int>) -> bool { match (a, b) { (None, _) => true, (Some(_), None) => false, (Some(x), Some(y)) => x <= y } }
+pub open spec fn opt_lt(a: Option<int>, b: Option<int>) -> bool { match (a, b) { (None, None) => false, (None, Some(_)) => true, (Some(_), None) => false, (Some(x), Some(y)) => x < y } }
 #[verifier::external_body]
 pub fn sv_le(a: ScalarValue, b: ScalarValue) -> (r: bool)
-    ensures (int_of(a) is Some && int_of(b) is Some) ==> r == (int_of(a)->Some_0 <= int_of(b)->Some_0) { unimplemented!() }
+    ensures (a is Int64 && b is Int64) ==> r == opt_le(int_of(a), int_of(b)) { unimplemented!() }
 #[verifier::external_body]
 pub fn sv_lt(a: ScalarValue, b: ScalarValue) -> (r: bool)
-    ensures (int_of(a) is Some && int_of(b) is Some) ==> r == (int_of(a)->Some_0 < int_of(b)->Some_0) { unimplemented!() }
+    ensures (a is Int64 && b is Int64) ==> r == opt_lt(int_of(a), int_of(b)) { unimplemented!() }
 /// ASSUMED contract of coerce_for_comparison for operands of the same data type (no cast needed: both results None);
 /// operands of different types go through comparison_coercion + Arrow casts and are not covered
 #[verifier::external_body]
@@ -49,3 +52,23 @@ fn owned_or<'a>(owned: &'a Option<Interval>, fallback: &'a Interval) -> (r: &'a 
 {
     match owned { Some(i) => i, None => fallback }
 }
+/// ASSUMED contracts (read off the macro-generated code, outside the Verus subset) for the Int64 instance:
+/// Interval::new keeps Int64 endpoints as they are; next_value / prev_value step by one and turn the extreme value into
+/// NULL (= unbounded)
+#[verifier::external_body]
+fn interval_new(lower: ScalarValue, upper: ScalarValue) -> (r: Interval)
+    requires lower is Int64, upper is Int64,
+    ensures r.lower == lower, r.upper == upper,
+{ unimplemented!() }
+#[verifier::external_body]
+fn next_value(value: ScalarValue) -> (r: ScalarValue)
+    requires value is Int64,
+    ensures r is Int64, int_of(value) is None ==> int_of(r) is None,
+        int_of(value) is Some ==> int_of(r) == (if int_of(value)->Some_0 == i64::MAX { None::<int> } else { Some(int_of(value)->Some_0 + 1) }),
+{ unimplemented!() }
+#[verifier::external_body]
+fn prev_value(value: ScalarValue) -> (r: ScalarValue)
+    requires value is Int64,
+    ensures r is Int64, int_of(value) is None ==> int_of(r) is None,
+        int_of(value) is Some ==> int_of(r) == (if int_of(value)->Some_0 == i64::MIN { None::<int> } else { Some(int_of(value)->Some_0 - 1) }),
+{ unimplemented!() }
